@@ -30,6 +30,21 @@ fn main() {
             };
             let _ = std::fs::create_dir_all(&a.work_dir);
             let rep = match prop {
+                #[cfg(feature = "std")]
+                12 => {
+                    // Key/&u32 histories, then String items looked up through &str
+                    let mut r = run_history_property(&a);
+                    let s = special::run_c12_strings(&a);
+                    r.evaluations += s.evaluations;
+                    r.violations.extend(s.violations);
+                    r.harness_bugs.extend(s.harness_bugs);
+                    r.extra.insert("string_key_cases".into(), serde_json::json!(s.evaluations));
+                    r.extra.insert("string_key_nontrivial".into(), serde_json::json!(s.nontrivial));
+                    if r.samples.len() < 5 {
+                        r.samples.extend(s.samples.into_iter().take(1));
+                    }
+                    r
+                }
                 1 | 2 | 3 | 4 | 6 | 7 | 8 | 9 | 11 | 12 | 13 | 15 | 16 | 17 => run_history_property(&a),
                 5 => cost::run_c05(&a),
                 10 => fault::run_c10(&a),
@@ -53,7 +68,7 @@ fn main() {
             let text = std::fs::read_to_string(&file).expect("read replay file");
             let strict = args.iter().any(|a| a == "--strict");
             let known = if strict { vec![] } else { load_known(&known_path, &format!("C{:02}", prop)) };
-            let res = if prop == 5 { cost::replay_c05(&text) } else if prop == 10 { fault::replay_c10(&text) } else if matches!(prop, 14 | 18) { special::replay_special(prop, &text) } else { replay_history(prop, &text, &known) };
+            let res = if prop == 5 { cost::replay_c05(&text) } else if prop == 12 && text.contains("\"double\"") { special::replay_special(prop, &text) } else if prop == 10 { fault::replay_c10(&text) } else if matches!(prop, 14 | 18) { special::replay_special(prop, &text) } else { replay_history(prop, &text, &known) };
             match res {
                 Ok(None) => {
                     println!("PASS");
